@@ -213,6 +213,90 @@ theorem downPath_extract (C : Crypto) (bs : Array Bytes) (m : Nat) (hm : m ≤ b
     simp only [downPath, ih (d + 1) (o / 2) h']
     rw [nodeAt_extract C bs m hm d (sib o) (by omega), nodeAt_extract C bs m hm (d + 1) (o / 2) (by omega)]
 
+/-- an older node put at the end of an ordered list keeps it ordered, when nothing in the list is shallower -/
+theorem ordered_snoc (C : Crypto) (bs : Array Bytes) (l : List Node) (dx ox : Nat) (hl : Ordered C bs l)
+    (hd : ∀ y ∈ l, ∃ dy oy, y = nodeAt C bs dy oy ∧ dx ≤ dy ∧ y.index ≠ (nodeAt C bs dx ox).index) :
+    Ordered C bs (l ++ [nodeAt C bs dx ox]) := by
+  constructor
+  · intro a b z hs y hy
+    rcases split_append l [nodeAt C bs dx ox] a b z hs with ⟨b', h1, _⟩ | ⟨a', h1, h2⟩
+    · exact hl.distinct a b' z h1 y hy
+    · cases a' with
+      | nil =>
+        simp only [List.nil_append, List.cons.injEq] at h2
+        obtain ⟨rfl, _⟩ := h2
+        simp only [List.append_nil] at h1
+        subst h1
+        obtain ⟨_, _, _, _, hne⟩ := hd y hy
+        exact hne
+      | cons w a'' => simp at h2
+  · intro a b d o hs o' ho' hmem
+    rcases split_append l [nodeAt C bs dx ox] a b _ hs with ⟨b', h1, hb⟩ | ⟨a', h1, h2⟩
+    · rw [hb]
+      rcases List.mem_append.mp hmem with hm | hm
+      · exact List.mem_append.mpr (Or.inl (hl.parentsNewer a b' d o h1 o' ho' hm))
+      · exact List.mem_append.mpr (Or.inr hm)
+    · cases a' with
+      | nil =>
+        exfalso
+        simp only [List.nil_append, List.cons.injEq] at h2
+        obtain ⟨hx, _⟩ := h2
+        obtain ⟨e1, _⟩ := index_inj _ _ _ _ (show Flat.index dx ox = Flat.index (d + 1) o from congrArg Node.index hx)
+        rcases List.mem_append.mp hmem with hm | hm
+        · obtain ⟨dy, oy, ey, hle, _⟩ := hd _ hm
+          obtain ⟨e3, _⟩ := index_inj _ _ _ _ (show Flat.index d o' = Flat.index dy oy from congrArg Node.index ey)
+          omega
+        · simp only [List.mem_singleton] at hm
+          obtain ⟨e3, _⟩ := index_inj _ _ _ _ (show Flat.index d o' = Flat.index dx ox from congrArg Node.index hm)
+          omega
+      | cons w a'' => simp at h2
+
+/-- the nodes of a block's (or node's) climb, newest first, are ordered, and none is shallower than the start -/
+theorem ordered_path (C : Crypto) (bs : Array Bytes) : ∀ (k d o : Nat), Ordered C bs (upPath C bs d o k ++ [nodeAt C bs d o])
+    ∧ ∀ x ∈ (upPath C bs d o k ++ [nodeAt C bs d o]), ∃ dx ox, x = nodeAt C bs dx ox ∧ d ≤ dx := by
+  intro k
+  induction k with
+  | zero =>
+    intro d o
+    simp only [upPath, List.nil_append]
+    have := ordered_snoc C bs [] d o (ordered_nil C bs) (fun y hy => by cases hy)
+    exact ⟨by simpa using this, fun x hx => by simp only [List.mem_singleton] at hx; exact ⟨d, o, hx, Nat.le_refl _⟩⟩
+  | succ k ih =>
+    intro d o
+    obtain ⟨h1, h2⟩ := ih (d + 1) (o / 2)
+    have hs0 := ordered_snoc C bs _ d (sib o) h1 (fun y hy => by
+      obtain ⟨dy, oy, ey, hle⟩ := h2 y hy
+      refine ⟨dy, oy, ey, by omega, fun e => ?_⟩
+      rw [ey] at e
+      obtain ⟨e1, _⟩ := index_inj _ _ _ _ (show Flat.index dy oy = Flat.index d (sib o) from e)
+      omega)
+    have hmem0 : ∀ y ∈ (upPath C bs (d + 1) (o / 2) k ++ [nodeAt C bs (d + 1) (o / 2)]) ++ [nodeAt C bs d (sib o)],
+        ∃ dy oy, y = nodeAt C bs dy oy ∧ d ≤ dy ∧ y.index ≠ (nodeAt C bs d o).index := by
+      intro y hy
+      rcases List.mem_append.mp hy with hy | hy
+      · obtain ⟨dy, oy, ey, hle⟩ := h2 y hy
+        refine ⟨dy, oy, ey, by omega, fun e => ?_⟩
+        rw [ey] at e
+        obtain ⟨e1, _⟩ := index_inj _ _ _ _ (show Flat.index dy oy = Flat.index d o from e)
+        omega
+      · simp only [List.mem_singleton] at hy
+        refine ⟨d, sib o, hy, Nat.le_refl _, fun e => ?_⟩
+        rw [hy] at e
+        obtain ⟨_, e2⟩ := index_inj _ _ _ _ (show Flat.index d (sib o) = Flat.index d o from e)
+        unfold sib at e2
+        split at e2 <;> omega
+    have hn0 := ordered_snoc C bs _ d o hs0 hmem0
+    have hlist : upPath C bs d o (k + 1) ++ [nodeAt C bs d o]
+        = ((upPath C bs (d + 1) (o / 2) k ++ [nodeAt C bs (d + 1) (o / 2)]) ++ [nodeAt C bs d (sib o)]) ++ [nodeAt C bs d o] := by
+      simp [upPath, List.append_assoc]
+    rw [hlist]
+    refine ⟨hn0, fun x hx => ?_⟩
+    rcases List.mem_append.mp hx with hx | hx
+    · obtain ⟨dy, oy, ey, hle, _⟩ := hmem0 x hx
+      exact ⟨dy, oy, ey, hle⟩
+    · simp only [List.mem_singleton] at hx
+      exact ⟨d, o, hx, Nat.le_refl _⟩
+
 /-- the changeset after the block's climb satisfies the upgrade's invariant at the replica's length -/
 theorem inv_after_block (C : Crypto) (hC : HashWF C) (bs : Array Bytes) (m : Nat) (c : Core) (d : Disk) (held : Nat → Bool)
     (h : RepRAt C bs m c d held) (i k : Nat)
@@ -223,7 +307,7 @@ theorem inv_after_block (C : Crypto) (hC : HashWF C) (bs : Array Bytes) (m : Nat
     simp [Changeset.nodes, upPath_reverse]
   have hin0 : (i / 2 ^ k + 1) * 2 ^ (0 + k) ≤ m := by simpa using hin
   have hspan := span_le i 0 k
-  refine ⟨hinv0.roots, hinv0.length, hinv0.bytes, ?_, ?_⟩
+  refine ⟨hinv0.roots, hinv0.length, hinv0.bytes, ?_, ?_, (ordered_path C bs k 0 i).1⟩
   · -- closed: the block path hangs on a stored node
     have hsz := size_extract bs m h.le
     have hcl := (closed_extract C bs m h.le c.tree d.tree).mpr h.closed
@@ -255,14 +339,17 @@ theorem honest_old_block_upgrade_accepted (C : Crypto) (hC : HashWF C) (bs : Arr
         ⟨c.tree.fork, some ⟨i, bs.getD i [], sibPath C bs 0 i (c.tree.missingNodes d.tree (2 * i))⟩, none, none,
           some ⟨m, n - m, us.map (fun p => nodeAt C bs p.1 p.2), [], sig⟩⟩ c.publicKey = .ok cs'
       ∧ Inv C bs c.tree d.tree cs' n ∧ cs'.upgraded = true ∧ cs'.signature = some sig ∧ cs'.fork = c.tree.fork
-      ∧ c.tree.commitable cs' = true := by
+      ∧ c.tree.commitable cs' = true
+      ∧ cs'.ancestors = c.tree.length ∧ cs'.origLength = c.tree.length ∧ cs'.hash = some (rootsHash C cs'.roots)
+      ∧ cs'.rnodes.length ≤ 64 + (2 * c.tree.missingNodes d.tree (2 * i) + 1) + 2 * us.length
+      ∧ ∃ U, cs'.rnodes = U ++ (upPath C bs 0 i (c.tree.missingNodes d.tree (2 * i)) ++ [nodeAt C bs 0 i]) := by
   have hN : n < 2 ^ 64 := by have := h.small.1; omega
   have hM : m < 2 ^ 64 := by omega
   obtain ⟨hstored, hin⟩ := missingNodes_spec C bs m c.tree d.tree h.closed.sparse hM i hi
   generalize hk : c.tree.missingNodes d.tree (2 * i) = k at hstored hin
   have hinvb := inv_after_block C hC bs m c d held h i k hstored hin
   generalize hcsb : ({ c.tree.changeset with rnodes := upPath C bs 0 i k ++ [nodeAt C bs 0 i] } : Changeset) = csb at hinvb
-  obtain ⟨cs', h1, h2, h4, h5, h7, h8, h9, h10, _, _⟩ := grow_upgrade_accepted C hC bs c.tree d.tree m n hN hm0 hmn c.tree.fork c.publicKey sig
+  obtain ⟨cs', h1, h2, h4, h5, h7, h8, h9, h10, h11, h12, hsuf⟩ := grow_upgrade_accepted C hC bs c.tree d.tree m n hN hm0 hmn c.tree.fork c.publicKey sig
     csb hinvb us hup hsl hver
   -- the block root is not one of the upgrade's nodes
   have hx : ∀ nd ∈ (us.map fun p => nodeAt C bs p.1 p.2), nd.index ≠ (nodeAt C bs k (i / 2 ^ k)).index := by
@@ -288,15 +375,385 @@ theorem honest_old_block_upgrade_accepted (C : Crypto) (hC : HashWF C) (bs : Arr
     simp [Tree.requiredNode, nodeAt_index, hstored]
   have hrn : c.tree.changeset.rnodes = [] := rfl
   rw [hrn] at hc
-  refine ⟨cs', ?_, h2, h7, h5, h4, ?_⟩
+  have ho1 : cs'.origLength = c.tree.length := by rw [h8, ← hcsb]; rfl
+  have ho2 : cs'.origFork = c.tree.fork := by rw [h9, ← hcsb]; rfl
+  have hrl : csb.roots.length ≤ 64 := by
+    rw [← hcsb]
+    show c.tree.roots.length ≤ 64
+    rw [h.roots, rootsAt, List.length_map, List.length_reverse]
+    exact rootsStack_length_log 64 m hM
+  have hbl : csb.rnodes.length = 2 * k + 1 := by
+    rw [← hcsb]
+    have : ∀ kk dd oo, (upPath C bs dd oo kk).length = 2 * kk := by
+      intro kk
+      induction kk with
+      | zero => intro dd oo; rfl
+      | succ kk ihk => intro dd oo; simp only [upPath, List.length_append, ihk, List.length_cons, List.length_nil]; omega
+    simp only [List.length_append, this, List.length_cons, List.length_nil]
+  refine ⟨cs', ?_, h2, h7, h5, h4, ?_, by rw [h10, ← hcsb]; rfl, ho1, h11, by omega, by rw [← hcsb] at hsuf; exact hsuf⟩
   · unfold verifyProof
     simp only [verifyTree, untrustedOf, noSeekOf, Option.isNone_some, Bool.false_and, Bool.false_eq_true,
       ite_false, seekHalf, andThen, mainHalf, hnew, plainQueue_eq, hleaf, hrn, hc]
     rw [hcsb, hext]
     simp only [Bool.false_eq_true, ite_false, hreq]
     simp
-  · have ho1 : cs'.origLength = c.tree.length := by rw [h8, ← hcsb]; rfl
-    have ho2 : cs'.origFork = c.tree.fork := by rw [h9, ← hcsb]; rfl
-    simp [Tree.commitable, h7, ho1, ho2]
+  · simp [Tree.commitable, h7, ho1, ho2]
+
+/-! ### the byte offset of the block under the new roots -/
+
+/-- the ancestor of block `i` at depth `s` -/
+def anc (C : Crypto) (bs : Array Bytes) (i s : Nat) : Node := nodeAt C bs s (i / 2 ^ s)
+
+theorem anc_index_ne (C : Crypto) (bs : Array Bytes) (i s s' : Nat) (h : s ≠ s') : (anc C bs i s).index ≠ (anc C bs i s').index := by
+  intro e
+  exact h (index_inj _ _ _ _ (show Flat.index s _ = Flat.index s' _ from e)).1
+
+/-- one step of the scan: the running offset plus the start of the current ancestor stays the same -/
+theorem step_offset (C : Crypto) (bs : Array Bytes) (d o off : Nat) :
+    (match decide (o % 2 = 1), some (nodeAt C bs d o) with
+      | true, some p => off + ((nodeAt C bs (d + 1) (o / 2)).length - p.length)
+      | _, _ => off) + psum bs (o / 2 * 2 ^ (d + 1)) = off + psum bs (o * 2 ^ d) := by
+  by_cases ho : o % 2 = 1
+  · have e1 : 2 * (o / 2) = o - 1 := by omega
+    have e4 : o - 1 + 1 = o := by omega
+    have hl := len_parent C bs d (o / 2)
+    rw [e1, e4] at hl
+    have e3 : o / 2 * 2 ^ (d + 1) = (o - 1) * 2 ^ d := by rw [pow_succ2, ← e1]; ring
+    have hsz := nodeAt_len C bs d (o - 1)
+    rw [e4] at hsz
+    simp only [ho, decide_true]
+    rw [e3, hl, Nat.add_sub_cancel, Nat.add_assoc, Nat.add_comm (nodeAt C bs d (o - 1)).length, hsz]
+  · have e3 : o / 2 * 2 ^ (d + 1) = o * 2 ^ d := by
+      rw [pow_succ2]
+      have : o = 2 * (o / 2) := by omega
+      calc o / 2 * (2 * 2 ^ d) = (2 * (o / 2)) * 2 ^ d := by ring
+        _ = o * 2 ^ d := by rw [← this]
+    simp only [ho, decide_false]
+    rw [e3]
+
+/-- **the scan follows the block's ancestors as far as they are in the list**: on an ordered list of reference nodes,
+    after the ancestor at depth `j` the scan reaches the highest ancestor `T` such that all ancestors `j+1 … T` are in
+    the rest of the list; the offset it has added is the distance between the starts of the two spans -/
+theorem scan_chain (C : Crypto) (bs : Array Bytes) (i : Nat) (l : List Node) (href : ∀ x ∈ l, ∃ d o, x = nodeAt C bs d o)
+    (hdist : ∀ a b x, l = a ++ x :: b → (∀ y ∈ a, y.index ≠ x.index) ∧ (∀ y ∈ b, y.index ≠ x.index))
+    (hord : ∀ a b d o, l = a ++ nodeAt C bs (d + 1) o :: b → ∀ o', o' / 2 = o → nodeAt C bs d o' ∈ l → nodeAt C bs d o' ∈ a) :
+    ∀ (r pre : List Node) (j off : Nat), l = pre ++ r → (∀ s, s ≤ j → anc C bs i s ∉ r) →
+      ∃ T off', j ≤ T
+        ∧ byteOffsetInChangeset.scan r (iat (j + 1) (i / 2 ^ (j + 1))) off (decide (i / 2 ^ j % 2 = 1)) (some (anc C bs i j)) = (off', some (anc C bs i T))
+        ∧ off' + psum bs (i / 2 ^ T * 2 ^ T) = off + psum bs (i / 2 ^ j * 2 ^ j)
+        ∧ (∀ s, j < s → s ≤ T → anc C bs i s ∈ r) ∧ anc C bs i (T + 1) ∉ r := by
+  intro r
+  induction r with
+  | nil =>
+    intro pre j off _ _
+    exact ⟨j, off, Nat.le_refl _, by simp [byteOffsetInChangeset.scan], rfl, fun s h1 h2 => by omega, by simp⟩
+  | cons n r' ih =>
+    intro pre j off hl hno
+    have hl' : l = (pre ++ [n]) ++ r' := by rw [hl]; simp
+    have hnl : n ∈ l := by rw [hl]; simp
+    by_cases hm : n.index = (iat (j + 1) (i / 2 ^ (j + 1))).index
+    · -- the next ancestor
+      obtain ⟨d, o, hn⟩ := href n hnl
+      have hn' : n = anc C bs i (j + 1) := by
+        rw [hn] at hm ⊢
+        obtain ⟨e1, e2⟩ := index_inj _ _ _ _ (show Flat.index d o = Flat.index (j + 1) (i / 2 ^ (j + 1)) from hm)
+        rw [e1, e2]; rfl
+      have hno' : ∀ s, s ≤ j + 1 → anc C bs i s ∉ r' := by
+        intro s hs hmem
+        by_cases hsj : s ≤ j
+        · exact hno s hsj (List.mem_cons_of_mem _ hmem)
+        · have : s = j + 1 := by omega
+          subst this
+          rw [← hn'] at hmem
+          exact (hdist pre r' n hl).2 n hmem rfl
+      have hir : (iat (j + 1) (i / 2 ^ (j + 1))).isRight = decide (i / 2 ^ (j + 1) % 2 = 1) := rfl
+      have hdiv : i / 2 ^ j / 2 = i / 2 ^ (j + 1) := div_pow_succ' i j
+      have hdiv2 : i / 2 ^ (j + 1) / 2 = i / 2 ^ (j + 1 + 1) := div_pow_succ' i (j + 1)
+      obtain ⟨T, off', hT, hscan, hoff, hmemT, hnot⟩ := ih (pre ++ [n]) (j + 1)
+        (match decide (i / 2 ^ j % 2 = 1), some (anc C bs i j) with
+          | true, some p => off + (n.length - p.length)
+          | _, _ => off) hl' hno'
+      refine ⟨T, off', by omega, ?_, ?_, ?_, ?_⟩
+      · simp only [byteOffsetInChangeset.scan, hm, ite_true, iat_parent, hir, hdiv2]
+        rw [hn'] at hscan ⊢
+        exact hscan
+      · rw [hoff, hn']
+        have := step_offset C bs j (i / 2 ^ j) off
+        rw [hdiv] at this
+        exact this
+      · intro s h1 h2
+        by_cases hs : s = j + 1
+        · subst hs; rw [← hn']; simp
+        · exact List.mem_cons_of_mem _ (hmemT s (by omega) h2)
+      · intro hmem
+        rcases List.mem_cons.mp hmem with h | h
+        · rw [hn'] at h
+          exact anc_index_ne C bs i (T + 1) (j + 1) (by omega) (congrArg Node.index h)
+        · exact hnot h
+    · -- some other node: skipped
+      obtain ⟨T, off', hT, hscan, hoff, hmemT, hnot⟩ := ih (pre ++ [n]) j off hl' (fun s hs hmem => hno s hs (List.mem_cons_of_mem _ hmem))
+      refine ⟨T, off', hT, ?_, hoff, fun s h1 h2 => List.mem_cons_of_mem _ (hmemT s h1 h2), ?_⟩
+      · simp only [byteOffsetInChangeset.scan, hm, ite_false]
+        exact hscan
+      · intro hmem
+        rcases List.mem_cons.mp hmem with h | h
+        · -- the skipped node cannot be the ancestor above the last one reached
+          by_cases hTj : T = j
+          · subst hTj
+            apply hm
+            rw [← h]; rfl
+          · have hTin : anc C bs i T ∈ r' := hmemT T (by omega) (Nat.le_refl _)
+            have hTl : anc C bs i T ∈ l := by rw [hl]; exact List.mem_append.mpr (Or.inr (List.mem_cons_of_mem _ hTin))
+            have hl2 : l = pre ++ nodeAt C bs (T + 1) (i / 2 ^ (T + 1)) :: r' := by rw [hl, ← h]; rfl
+            have hpre := hord pre r' T (i / 2 ^ (T + 1)) hl2 (i / 2 ^ T) (div_pow_succ' i T) hTl
+            obtain ⟨a', b', hsplit⟩ := List.append_of_mem hTin
+            have hl3 : l = (pre ++ n :: a') ++ anc C bs i T :: b' := by rw [hl, hsplit]; simp
+            exact (hdist _ _ _ hl3).1 _ (List.mem_append.mpr (Or.inl hpre)) rfl
+        · exact hnot h
+
+/-- the order facts for the list oldest first (`Changeset.nodes`) -/
+theorem ordered_oldest (C : Crypto) (bs : Array Bytes) (rn : List Node) (h : Ordered C bs rn) :
+    (∀ a b x, rn.reverse = a ++ x :: b → (∀ y ∈ a, y.index ≠ x.index) ∧ (∀ y ∈ b, y.index ≠ x.index))
+      ∧ (∀ a b d o, rn.reverse = a ++ nodeAt C bs (d + 1) o :: b → ∀ o', o' / 2 = o → nodeAt C bs d o' ∈ rn.reverse → nodeAt C bs d o' ∈ a) := by
+  have hrev : ∀ a b (x : Node), rn.reverse = a ++ x :: b → rn = b.reverse ++ x :: a.reverse := by
+    intro a b x e
+    have := congrArg List.reverse e
+    simpa using this
+  constructor
+  · intro a b x e
+    have e' := hrev a b x e
+    constructor
+    · intro y hy ey
+      obtain ⟨a1, a2, hsplit⟩ := List.append_of_mem (List.mem_reverse.mpr hy)
+      have e2 : rn = (b.reverse ++ x :: a1) ++ y :: a2 := by rw [e', hsplit]; simp
+      exact h.distinct _ _ y e2 x (by simp) ey.symm
+    · intro y hy
+      exact h.distinct b.reverse a.reverse x e' y (List.mem_reverse.mpr hy)
+  · intro a b d o e o' ho' hmem
+    have e' := hrev a b _ e
+    have := h.parentsNewer b.reverse a.reverse d o e' o' ho' (List.mem_reverse.mp hmem)
+    exact List.mem_reverse.mp this
+
+theorem scan_skip (it : Iter) (off : Nat) (isRight : Bool) (par : Option Node) : ∀ (pre r : List Node), (∀ y ∈ pre, y.index ≠ it.index) →
+    byteOffsetInChangeset.scan (pre ++ r) it off isRight par = byteOffsetInChangeset.scan r it off isRight par := by
+  intro pre
+  induction pre with
+  | nil => intro r _; rfl
+  | cons y pre ih =>
+    intro r h
+    have hy : y.index ≠ it.index := h y (by simp)
+    simp only [List.cons_append, byteOffsetInChangeset.scan, hy, ite_false]
+    exact ih r (fun z hz => h z (by simp [hz]))
+
+/-- the scan from the start: it finds the leaf and then follows the ancestors as far as they are in the list -/
+theorem scan_start (C : Crypto) (bs : Array Bytes) (i : Nat) (l : List Node) (href : ∀ x ∈ l, ∃ d o, x = nodeAt C bs d o)
+    (hdist : ∀ a b x, l = a ++ x :: b → (∀ y ∈ a, y.index ≠ x.index) ∧ (∀ y ∈ b, y.index ≠ x.index))
+    (hord : ∀ a b d o, l = a ++ nodeAt C bs (d + 1) o :: b → ∀ o', o' / 2 = o → nodeAt C bs d o' ∈ l → nodeAt C bs d o' ∈ a)
+    (hleaf : nodeAt C bs 0 i ∈ l) :
+    ∃ T off', byteOffsetInChangeset.scan l (iat 0 i) 0 false none = (off', some (anc C bs i T))
+      ∧ off' + psum bs (i / 2 ^ T * 2 ^ T) = psum bs i
+      ∧ (∀ s, s ≤ T → anc C bs i s ∈ l) ∧ anc C bs i (T + 1) ∉ l := by
+  obtain ⟨pre, r', hl⟩ := List.append_of_mem hleaf
+  have hl' : l = (pre ++ [nodeAt C bs 0 i]) ++ r' := by rw [hl]; simp
+  obtain ⟨hd1, hd2⟩ := hdist pre r' _ hl
+  obtain ⟨T, off', _, hscan, hoff, hmemT, hnot⟩ := scan_chain C bs i l href hdist hord r' (pre ++ [nodeAt C bs 0 i]) 0 0 hl'
+    (fun s hs hmem => by
+      have : s = 0 := by omega
+      subst this
+      exact hd2 _ hmem (by simp [anc]))
+  have hmem_all : ∀ s, s ≤ T → anc C bs i s ∈ nodeAt C bs 0 i :: r' := by
+    intro s hs
+    by_cases h0 : s = 0
+    · subst h0; simp [anc]
+    · exact List.mem_cons_of_mem _ (hmemT s (by omega) hs)
+  refine ⟨T, off', ?_, by simpa using hoff, ?_, ?_⟩
+  · rw [hl, scan_skip _ _ _ _ pre _ (fun y hy => hd1 y hy)]
+    have hir : (iat 0 i).isRight = decide (i % 2 = 1) := rfl
+    have hidx : (nodeAt C bs 0 i).index = (iat 0 i).index := rfl
+    simp only [byteOffsetInChangeset.scan, hidx, ite_true, iat_parent, hir]
+    simpa [anc] using hscan
+  · intro s hs
+    rw [hl]; exact List.mem_append.mpr (Or.inr (hmem_all s hs))
+  · intro hmem
+    rw [hl] at hmem
+    rcases List.mem_append.mp hmem with h | h
+    · -- an ancestor in front of the leaf would be newer than its child, which sits at or behind the leaf
+      obtain ⟨p1, p2, hsp⟩ := List.append_of_mem h
+      have hl2 : l = p1 ++ nodeAt C bs (T + 1) (i / 2 ^ (T + 1)) :: (p2 ++ nodeAt C bs 0 i :: r') := by
+        rw [hl, hsp]; simp [anc]
+      have hTl : anc C bs i T ∈ l := by rw [hl]; exact List.mem_append.mpr (Or.inr (hmem_all T (Nat.le_refl _)))
+      have hp1 := hord p1 _ T (i / 2 ^ (T + 1)) hl2 (i / 2 ^ T) (div_pow_succ' i T) hTl
+      obtain ⟨a', b', hsplit⟩ := List.append_of_mem (hmem_all T (Nat.le_refl _))
+      have hl3 : l = (pre ++ a') ++ anc C bs i T :: b' := by rw [hl, hsplit]; simp
+      have hpre : anc C bs i T ∈ pre := by rw [hsp]; exact List.mem_append.mpr (Or.inl hp1)
+      exact (hdist _ _ _ hl3).1 _ (List.mem_append.mpr (Or.inl hpre)) rfl
+    · rcases List.mem_cons.mp h with h | h
+      · exact anc_index_ne C bs i (T + 1) 0 (by omega) (by rw [h]; simp [anc])
+      · exact hnot h
+
+/-- an aligned node inside the first `n` blocks that is not a root of `n` has its parent inside too -/
+theorem parent_inside (n d o : Nat) (hin : (o + 1) * 2 ^ d ≤ n) (hnr : (d, o) ∉ rootsStack n) : (o / 2 + 1) * 2 ^ (d + 1) ≤ n := by
+  have hp := pow_pos' d
+  have hq : o + 1 ≤ n / 2 ^ d := (Nat.le_div_iff_mul_le hp).mpr hin
+  have hnr' : ¬ (o + 1 = n / 2 ^ d ∧ (n / 2 ^ d) % 2 = 1) := fun h => hnr ((mem_rootsStack n d o).mpr h)
+  have hdd : n / 2 ^ (d + 1) = n / 2 ^ d / 2 := by rw [Nat.pow_succ, Nat.div_div_eq_div_mul]
+  have hgoal : o / 2 + 1 ≤ n / 2 ^ (d + 1) := by
+    rw [hdd]
+    by_cases he : o + 1 = n / 2 ^ d
+    · have : (n / 2 ^ d) % 2 = 0 := by
+        by_contra hc
+        exact hnr' ⟨he, by omega⟩
+      omega
+    · omega
+  exact (Nat.le_div_iff_mul_le (pow_pos' (d + 1))).mp hgoal
+
+/-- every ancestor inside the first `L` blocks of a stored node is stored (`ClosedAt` version of `Replica.anc_stored`) -/
+theorem anc_stored_at (C : Crypto) (bs : Array Bytes) (L : Nat) (t : Tree) (f : File) (h : ClosedAt C bs L t f) (d o : Nat)
+    (hst : t.node? f (Flat.index d o) = some (nodeAt C bs d o)) :
+    ∀ j, (o / 2 ^ j + 1) * 2 ^ (d + j) ≤ L → t.node? f (Flat.index (d + j) (o / 2 ^ j)) = some (nodeAt C bs (d + j) (o / 2 ^ j)) := by
+  intro j
+  induction j with
+  | zero => intro _; simpa using hst
+  | succ j ih =>
+    intro hin
+    have hstep := span_le (o / 2 ^ j) (d + j) 1
+    have e1 : o / 2 ^ j / 2 ^ 1 = o / 2 ^ (j + 1) := by rw [Nat.pow_one, Nat.div_div_eq_div_mul, ← Nat.pow_succ]
+    have e2 : d + j + 1 = d + (j + 1) := by omega
+    rw [e1, e2] at hstep
+    have hprev := ih (by omega)
+    have e3 : o / 2 ^ j / 2 = o / 2 ^ (j + 1) := by rw [Nat.div_div_eq_div_mul, ← Nat.pow_succ]
+    have := (h.closed (d + j) (o / 2 ^ j) hprev (by rw [e3, e2]; exact hin)).2
+    rw [e3, e2] at this
+    exact this
+
+/-- **the block lands at its offset**: for the changeset of an accepted block + upgrade proof (block below the replica's
+    length) `byte_offset_in_changeset` returns the block's offset in the writer's log — whether the scan ends at the
+    stored ancestor, at an old root that is still a root, or climbs through the merged parents to a new root -/
+theorem offset_in_upgraded (C : Crypto) (hC : HashWF C) (bs : Array Bytes) (m n : Nat) (c : Core) (d : Disk) (held : Nat → Bool)
+    (h : RepRAt C bs m c d held) (hn : n ≤ bs.size) (cs' : Changeset) (hinv : Inv C bs c.tree d.tree cs' n)
+    (i k : Nat) (hi : i < m)
+    (hstored : c.tree.node? d.tree (Flat.index k (i / 2 ^ k)) = some (nodeAt C bs k (i / 2 ^ k))) (hin : (i / 2 ^ k + 1) * 2 ^ k ≤ m)
+    (hsuf : ∃ U, cs'.rnodes = U ++ (upPath C bs 0 i k ++ [nodeAt C bs 0 i])) :
+    c.tree.byteOffsetInChangeset d.tree i cs' = .ok (psum bs i) := by
+  have hN : n < 2 ^ 64 := by have := h.small.1; omega
+  have hM : m < 2 ^ 64 := by have := h.le; have := h.small.1; omega
+  have hlen : c.tree.length = m := h.closed.sparse.length
+  have hne : ¬ (c.tree.length = i) := by omega
+  have hnew : Iter.new (2 * i) = iat 0 i := new_even i
+  obtain ⟨U, hU⟩ := hsuf
+  -- the node list, oldest first
+  have href : ∀ x ∈ cs'.nodes, ∃ dd o, x = nodeAt C bs dd o := by
+    intro x hx
+    obtain ⟨dd, o, e, _⟩ := hinv.nodesRef x (by simpa [Changeset.nodes] using hx)
+    exact ⟨dd, o, e⟩
+  obtain ⟨hdist, hord⟩ := ordered_oldest C bs cs'.rnodes hinv.order
+  have hleaf : nodeAt C bs 0 i ∈ cs'.nodes := by
+    simp only [Changeset.nodes, List.mem_reverse, hU]; simp
+  obtain ⟨T, off', hscan, hoff, hmemT, hnot⟩ := scan_start C bs i cs'.nodes href hdist hord hleaf
+  -- the ancestors up to the stored one are in the list, so the scan gets at least that far
+  have hpath : ∀ s, s ≤ k → anc C bs i s ∈ cs'.nodes := by
+    intro s hs
+    simp only [Changeset.nodes, List.mem_reverse, hU]
+    apply List.mem_append.mpr; right
+    by_cases h0 : s = 0
+    · subst h0; simp [anc]
+    · apply List.mem_append.mpr; left
+      apply (mem_upPath C bs _ k 0 i).mpr
+      have hs1 : s - 1 + 1 = s := by omega
+      exact ⟨s - 1, by omega, Or.inl (by simp only [anc, Nat.zero_add, hs1])⟩
+  have hTk : k ≤ T := by
+    by_contra hlt
+    exact hnot (hpath (T + 1) (by omega))
+  -- the view of the tree with the changeset's nodes
+  have hview := insert_lookup C hC bs c.tree (vt c.tree cs') d.tree cs'.nodes href rfl
+  obtain ⟨hvnew, hvold, hvonly⟩ := hview
+  have hTin : anc C bs i T ∈ cs'.nodes := hmemT T (Nat.le_refl _)
+  have hTend : (i / 2 ^ T + 1) * 2 ^ T ≤ n := by
+    obtain ⟨dd, o, e, hb⟩ := hinv.nodesRef (anc C bs i T) (by simpa [Changeset.nodes] using hTin)
+    obtain ⟨e1, e2⟩ := index_inj _ _ _ _ (show Flat.index T (i / 2 ^ T) = Flat.index dd o from congrArg Node.index e)
+    rw [← e1, ← e2] at hb; exact hb
+  have hroots := inv_roots C bs c.tree d.tree cs' n hinv
+  unfold Tree.byteOffsetInChangeset
+  simp only [hne, ite_false, hnew, hscan]
+  cases hfi : cs'.roots.findIdx? (fun r => r.index = (anc C bs i T).index) with
+  | some x =>
+    simp only []
+    rw [hroots] at hfi ⊢
+    obtain ⟨hx, hpx, _⟩ := List.findIdx?_eq_some_iff_getElem.mp hfi
+    have hx' : x < (rootsStack n).reverse.length := by simpa [rootsAt] using hx
+    have hget : (rootsStack n).reverse[x]? = some ((rootsStack n).reverse[x]) := List.getElem?_eq_getElem hx'
+    have hidx : Flat.index ((rootsStack n).reverse[x]).1 ((rootsStack n).reverse[x]).2 = Flat.index T (i / 2 ^ T) := by
+      have : (rootsAt C bs n)[x] = nodeAt C bs ((rootsStack n).reverse[x]).1 ((rootsStack n).reverse[x]).2 := by
+        simp [rootsAt]
+      rw [this] at hpx
+      simpa [nodeAt_index, anc] using hpx
+    obtain ⟨e1, e2⟩ := index_inj _ _ _ _ hidx
+    have hps := cover_prefix_sum C bs _ 0 n (cover_roots n) x _ hget
+    rw [e1, e2] at hps
+    simp only [psum, Nat.add_zero] at hps
+    simp only [rootsAt]
+    rw [hps]
+    first | rw [hoff] | (congr 1; omega)
+  | none =>
+    simp only []
+    -- not a root of `n`: its parent lies inside `n`, is stored in the view, and — not being in the list — in the old tree
+    have hnotroot : (T, i / 2 ^ T) ∉ rootsStack n := by
+      intro hmem
+      have hall := List.findIdx?_eq_none_iff.mp hfi
+      have : nodeAt C bs T (i / 2 ^ T) ∈ cs'.roots := by
+        rw [hroots, rootsAt]
+        exact List.mem_map.mpr ⟨(T, i / 2 ^ T), List.mem_reverse.mpr hmem, rfl⟩
+      have := hall _ this
+      simp [anc] at this
+    have hpin := parent_inside n T (i / 2 ^ T) hTend hnotroot
+    have hTview : (vt c.tree cs').node? d.tree (Flat.index T (i / 2 ^ T)) = some (nodeAt C bs T (i / 2 ^ T)) := hvnew T _ hTin
+    have hpar := (hinv.closed.closed T (i / 2 ^ T) hTview hpin).2
+    rw [div_pow_succ' i T] at hpar
+    have hparold : c.tree.node? d.tree (Flat.index (T + 1) (i / 2 ^ (T + 1))) = some (nodeAt C bs (T + 1) (i / 2 ^ (T + 1))) := by
+      rcases hvonly (T + 1) _ hpar with h1 | h1
+      · exact absurd h1 hnot
+      · exact h1
+    -- so the parent, and with it the ancestor reached, lies inside the old tree and is stored there
+    obtain ⟨dd, o, e0, e1, hbp⟩ := h.closed.sparse.sound _ _ hparold
+    obtain ⟨ed, eo⟩ := index_inj _ _ _ _ e0
+    have hparin : (i / 2 ^ (T + 1) + 1) * 2 ^ (T + 1) ≤ m := by rw [← ed, ← eo] at hbp; exact hbp
+    have hTinm : (i / 2 ^ T + 1) * 2 ^ T ≤ m := by
+      have := end_child_le T (i / 2 ^ (T + 1)) (i / 2 ^ T) (div_pow_succ' i T)
+      omega
+    have hTold : c.tree.node? d.tree (Flat.index T (i / 2 ^ T)) = some (nodeAt C bs T (i / 2 ^ T)) := by
+      have := anc_stored_at C bs m c.tree d.tree h.closed k (i / 2 ^ k) hstored (T - k) (by
+        have e1 : i / 2 ^ k / 2 ^ (T - k) = i / 2 ^ T := by
+          rw [Nat.div_div_eq_div_mul, ← Nat.pow_add]; congr 2; omega
+        have e2 : k + (T - k) = T := by omega
+        rw [e1, e2]; exact hTinm)
+      have e1 : i / 2 ^ k / 2 ^ (T - k) = i / 2 ^ T := by
+        rw [Nat.div_div_eq_div_mul, ← Nat.pow_add]; congr 2; omega
+      have e2 : k + (T - k) = T := by omega
+      rw [e1, e2] at this
+      exact this
+    -- the old tree's own descent gives the start of that ancestor's span
+    have hsz := size_extract bs m h.le
+    have hcl := (closed_extract C bs m h.le c.tree d.tree).mpr h.closed
+    have hT64 : T ≤ 64 := by
+      have h4 : 2 ^ T ≤ (i / 2 ^ T + 1) * 2 ^ T := Nat.le_mul_of_pos_left _ (Nat.succ_pos _)
+      have h5 : 2 ^ T < 2 ^ 64 := by omega
+      have := (Nat.pow_lt_pow_iff_right (by decide : 1 < 2)).mp h5
+      omega
+    have hTold' : c.tree.node? d.tree (Flat.index T (i / 2 ^ T)) = some (nodeAt C (bs.extract 0 m) T (i / 2 ^ T)) := by
+      rw [nodeAt_extract C bs m h.le T (i / 2 ^ T) hTinm]; exact hTold
+    have hL := closed_left C (bs.extract 0 m) c.tree d.tree hcl T (i / 2 ^ T) hTold'
+    have hbo := byteOffsetFromNodes_sparse C (bs.extract 0 m) c.tree d.tree (by rw [hsz]; exact hM)
+      (by rw [h.roots, roots_extract C bs m h.le]) T (i / 2 ^ T) hT64 (by rw [hsz]; exact hTinm) hL
+    have hspan := span_le i 0 T
+    have hstart : i / 2 ^ T * 2 ^ T ≤ m := by
+      have hp := pow_pos' T
+      have : (i / 2 ^ T + 1) * 2 ^ T = i / 2 ^ T * 2 ^ T + 2 ^ T := by ring
+      omega
+    rw [psum_extract bs m h.le _ hstart] at hbo
+    have hidx : (anc C bs i T).index = Flat.index T (i / 2 ^ T) := rfl
+    rw [hidx, hbo]
+    simp only []
+    congr 1
+    omega
 
 end HC.BlockUpgrade
